@@ -45,6 +45,15 @@ def params_view(p) -> dict:
     )
 
 
+def bucket_view(b) -> dict:
+    d = dict(data=b.data, ttl=None if b.ttl is None else b.ttl.total_seconds(), ts=b.timestamp.isoformat())
+    check_virtual_stamp(b.timestamp)
+    for k in ("success", "exception", "started_when", "finished_when"):
+        if hasattr(b, k):
+            d[k] = getattr(b, k)
+    return d
+
+
 class World:
     def __init__(self, kind: str, loop: VLoop, *, buckets: str | None = None, chooser=None,
                  clients: int = 1, bucket_kind: str | None = None):
@@ -110,6 +119,9 @@ class World:
                 ab = None
         conn = Connection(mb, ab, rb)
         self._spy(mb, i)
+        for role, bb in (("args", ab), ("results", rb)):
+            if bb is not None:
+                self._spy_bucket(bb, role, i)
         return conn
 
     @staticmethod
@@ -155,6 +167,41 @@ class World:
 
         spy.__name__ = name
         return spy
+
+    def _spy_bucket(self, bb, role, client) -> None:
+        """Log bucket-broker calls below the middleware; `self.bucket_faults` may make them raise."""
+        log = self.log
+        loop = self.loop
+        world = self
+        for name in ("get_bucket", "store_bucket", "delete_bucket"):
+            w = getattr(bb, name)
+            inner = w.fn
+
+            def mk(name, inner):
+                async def spy(id_, *a, **kw):
+                    payload = a[0] if a else kw.get("payload")
+                    rec = [loop._ns, "bucket", name, id_, role,
+                           None if payload is None else bucket_view(payload), None]
+                    log.append(rec)
+                    fault = world.bucket_fault(role, name, id_)
+                    if fault is not None:
+                        rec[6] = "fault"
+                        raise fault
+                    r = await inner(id_, *a, **kw)
+                    rec[6] = "ok"
+                    return r
+                spy.__name__ = name
+                return spy
+
+            w.fn = mk(name, inner)
+
+    def bucket_fault(self, role, name, id_):
+        """Fault choice at every bucket call: default succeed; deviation = raise."""
+        if not getattr(self, "bucket_faults", False) or self.chooser is None:
+            return None
+        if self.chooser.choose(f"fault:{role}.{name}", 2):
+            return ConnectionError(f"{role} bucket broker unavailable ({name})")
+        return None
 
     async def connect(self) -> None:
         for c in self.conns:
